@@ -2,10 +2,10 @@
    Only statements, closed by [exact lemma], with Print Assumptions beneath. *)
 From Coq Require Import String List NArith Bool Permutation.
 From J5V.lib Require Import Outcome.
-From J5V.model Require Import Pipeline PipelineCompile PipelineEntity PipelineValid PipelineCorr.
+From J5V.model Require Import Pipeline PipelineCompile PipelineEntity PipelineValid PipelineList PipelineCorr.
 From J5V.gen Require SwaggerGen.
 From J5V.lib Require Strcase.
-From J5V.proofs Require Import PipelineProofs PipelineStrcaseProofs StrcaseProofs PipelineChainProofs PipelinePathProofs PipelineEntityProofs PipelineValidProofs.
+From J5V.proofs Require Import PipelineProofs PipelineStrcaseProofs StrcaseProofs PipelineChainProofs PipelinePathProofs PipelineEntityProofs PipelineValidProofs PipelineListProofs.
 Import ListNotations.
 Local Open Scope N_scope.
 
@@ -157,6 +157,67 @@ Theorem C16_chain_with_entities_partial : forall im anns api ms,
 Proof. exact chain_with_entities. Qed.
 Print Assumptions C16_chain_with_entities_partial.
 
+
+(* ---- list requests (buildListRequest): filterable / sortable / searchable fields ------------------ *)
+(* the list request of a list method can be built for every walk when the default filters of every enum
+   field name options of its enum (OptionByName: as written or without the enum's prefix). The compiler does
+   not check that: see the refutation and the known finding. *)
+Theorem C16_list_fields_total : forall rt g root walk, defaults_known rt ->
+  exists lf, build_list_fields rt g root walk = Ok lf.
+Proof. exact list_fields_total. Qed.
+Print Assumptions C16_list_fields_total.
+
+(* every listed name is the dotted path of a walked field whose type is one buildListRequest reads that
+   constraint from *)
+Theorem C16_list_fields_names : forall rt g root walk lf,
+  build_list_fields rt g root walk = Ok lf ->
+  (forall n, In n (lf_filter lf) -> exists path ty, In (path, ty) walk /\ n = dotted_path path
+                                     /\ (is_alt ty FILTER_KINDS = true \/ is_enum_ref ty))
+  /\ (forall n, In n (lf_sort lf) -> exists path ty, In (path, ty) walk /\ n = dotted_path path /\ is_alt ty SORT_KINDS = true)
+  /\ (forall n, In n (lf_search lf) -> exists path ty, In (path, ty) walk /\ n = dotted_path path /\ is_alt ty SEARCH_KINDS = true).
+Proof. exact list_fields_names. Qed.
+Print Assumptions C16_list_fields_names.
+
+(* the chain with entities and list requests, PARTIAL in the same way as C16_chain_with_entities_partial *)
+Theorem C16_chain_with_lists_partial : forall im anns rt api ms,
+  add_structure (im_services im) {| sa_services := []; sa_topics := [] |} = Ok api ->
+  wf_anns anns ->
+  (forall es, walk_source_schemas anns = Ok es -> exists evs, omapM (entity_events (im_schemas im)) es = Ok evs) ->
+  all_refs_link (im_schemas im) = true -> wf_env (im_schemas im) -> client_env (im_schemas im) <> None ->
+  (forall es, walk_source_schemas anns = Ok es -> forall k, In k (entity_roots es) -> present (im_schemas im) k) ->
+  methods_from_source true (with_roots im []) api = Ok ms ->
+  Forall wf_client_method ms ->
+  (forall k, In k (flat_map method_roots ms) -> present (im_schemas im) k) ->
+  defaults_known rt ->
+  let r := run_chain_list current_config im anns rt in
+  exists es ks,
+    walk_source_schemas anns = Ok es
+    /\ cr_source r = Ok api
+    /\ cr_client r = Ok (ms, ks)
+    /\ (forall x, In x ks <->
+          present (cenv (im_schemas im)) x /\
+          exists k, In k (root_refs (im_schemas im) (entity_roots es) ++ flat_map method_roots ms)
+                    /\ present (cenv (im_schemas im)) k /\ reach (cenv (im_schemas im)) k x)
+    /\ cr_swagger r = Ok tt
+    /\ Forall (fun m => exists o, method_list_fields rt (im_schemas im) m = Ok o) ms.
+Proof. exact chain_with_lists. Qed.
+Print Assumptions C16_chain_with_lists_partial.
+
+(* C16_full with list requests: for a valid declared package and known defaults, building the list request of
+   every list method succeeds and leaves the result of C16_full unchanged *)
+Theorem C16_full_lists : forall (to_snake : str -> str) (P : decl_package) rt,
+  valid_package to_snake P -> defaults_known rt ->
+  let r0 := run_chain current_config (compile_image to_snake P) in
+  let g := im_schemas (compile_image to_snake P) in
+  with_lists rt g r0 = r0
+  /\ Forall (fun m => exists o, method_list_fields rt g m = Ok o) (declared_clients to_snake P).
+Proof. exact chain_full_lists. Qed.
+Print Assumptions C16_full_lists.
+
+(* the hypothesis defaults_known is needed: a default filter that names no option fails the client stage *)
+Theorem C16_list_unknown_default_refuted : lex_fields ["NOPE"]%string = Err "unknown enum value".
+Proof. exact list_fields_unknown_default_refuted. Qed.
+Print Assumptions C16_list_unknown_default_refuted.
 
 (* ---- flattened object fields (ObjectSchema.ClientProperties) ------------------------------------ *)
 (* the reference walk sees an object through its client properties: its own properties that are not
@@ -464,3 +525,9 @@ Example C16_example_entities :
      = Ok [ (ent_ex_pkg, bytes_of "WidgetKeys"); (ent_ex_pkg, bytes_of "WidgetState"); (ent_ex_pkg, bytes_of "WidgetEvent");
             (ent_ex_pkg, bytes_of "GadgetKeys"); (ent_ex_pkg, bytes_of "GadgetState"); (ent_ex_pkg, bytes_of "GadgetEvent") ].
 Proof. exact (conj ent_ex_anns_wf ent_ex_anns_result). Qed.
+
+(* defaults with and without the prefix; flattened and nested fields take their rules from the declaring schema *)
+Example C16_example_list_fields :
+  lex_fields ["ALPHA"; "KIND_BETA"]%string
+  = Ok (map bytes_of ["kind"; "weight"; "flag"; "sub.flag"], map bytes_of ["weight"], map bytes_of ["title"; "sub.title"])%string.
+Proof. exact list_fields_example. Qed.
